@@ -135,7 +135,12 @@ async fn do_request(mut svc: ClientSvc, spec: ReqSpec, obs: Obs) {
                     Ok(up) => {
                         use tokio::io::{AsyncReadExt, AsyncWriteExt};
                         let mut io = hyperdriver::bridge::io::TokioIo::new(up);
-                        let _ = io.write_all(b"hello").await;
+                        // the message goes out in two pieces, so that the peer's read_exact meets a partly filled buffer
+                        let _ = io.write_all(b"he").await;
+                        let _ = io.flush().await;
+                        yield_now().await;
+                        yield_now().await;
+                        let _ = io.write_all(b"llo").await;
                         let mut buf = [0u8; 5];
                         let r = io.read_exact(&mut buf).await;
                         Ok(Resp { status, echo_id: Some(spec.id.to_string()), origin: None, body: if r.is_ok() { buf.to_vec() } else { b"<upgraded-io-failed>".to_vec() } })
@@ -164,7 +169,11 @@ async fn srv_handler(obs: Obs, origin: &'static str, exec: crate::det::Exec, mut
                 let mut io = hyperdriver::bridge::io::TokioIo::new(up);
                 let mut buf = [0u8; 5];
                 if io.read_exact(&mut buf).await.is_ok() {
-                    let _ = io.write_all(b"world").await;
+                    let _ = io.write_all(b"wor").await;
+                    let _ = io.flush().await;
+                    yield_now().await;
+                    yield_now().await;
+                    let _ = io.write_all(b"ld").await;
                 }
             }
         });
